@@ -7,7 +7,7 @@
    * GLMM.BitUtil is a hand-written model of the other functions, tied to the code by the correspondence check.
      Theorems: every integer type and value for ceil/floor/next/prevMultiple, isMultiple, mask, gtx mod, pow;
      every 8- and 16-bit value (and every count / shift) for the power-of-two family, findNSB, the rotations, gtx/bit;
-     every field for bitfieldFillOne/Zero (8/16/32-bit types); sqrt for every x < 65536; factorial up to 12! / 20!.
+     every field for bitfieldFillOne/Zero (8/16/32-bit types); sqrt for every x < 65536; factorial for every n whose n! is a value of T (any width; induction over the loop).
      every positive value of EVERY width (8/16/32/64, signed and unsigned) for isPowerOfTwo, ceil/floor/roundPowerOfTwo (results that are
      representable), every non-zero value for gtx lowestBitValue, every 32-bit value for nlz -- through C05's ladder theorems
      (P_C05_msb.smear_all: the smear ladder yields the run of ones up to the top bit; findMSB = log2; findLSB = trailing zeros).
@@ -149,6 +149,9 @@ Theorem C18_factorial_32 : forallb (fun n => (factorial true 32 (Z.of_nat n) =? 
 Proof. exact P_C18_w8.factorial_32. Qed.
 Theorem C18_factorial_64 : forallb (fun n => (factorial true 64 (Z.of_nat n) =? fact n) && (factorial false 64 (Z.of_nat n) =? fact n)) (seq 0 21) = true.
 Proof. exact P_C18_w8.factorial_64. Qed.
+(* every width, every n whose factorial is a value of T (unbounded statement; the two sweeps above are its instances) *)
+Theorem C18_factorial_all : forall sg w n, 0 < w -> (n <= 199)%nat -> in_T sg w (fact n) = true -> factorial sg w (Z.of_nat n) = fact n.
+Proof. exact P_C18_general.factorial_correct. Qed.
 Theorem C18_mod_int : forall x y, in_T true 32 x = true -> 0 < y < 2 ^ 30 -> mod_int x y = x mod y. Proof. exact P_C18_general.mod_int_correct. Qed.
 Theorem C18_mod_uint : forall x y, 0 <= x < 2 ^ 32 -> 0 < y < 2 ^ 32 -> mod_uint x y = x mod y. Proof. exact P_C18_general.mod_uint_correct. Qed.
 Theorem C18_pow_int : forall x y, 0 < y -> in_T true 32 (x ^ y) = true -> pow_int x y = x ^ y. Proof. exact P_C18_general.pow_int_correct. Qed.
@@ -169,6 +172,7 @@ Print Assumptions C18_mask.
 Print Assumptions C18_16bit_all_values.
 Print Assumptions C18_fillOne_every_value.
 Print Assumptions C18_mod_int.
+Print Assumptions C18_factorial_all.
 Print Assumptions C18_ceilPowerOfTwo_every_positive_value.
 Print Assumptions C18_roundPowerOfTwo_every_positive_value.
 Print Assumptions C18_lowestBitValue_every_nonzero_value.
